@@ -3,6 +3,7 @@ import Model.Binary
 import Model.Bhiksha
 import Model.Quant
 import Model.TrieLM
+import Model.TrieBuild
 /-! Driver for stream `binary` (C04): prints, from counts + configuration only, the header bytes and
 every offset of the file layout in the same canonical form as harness/c04.cc prints what the real
 code computed. -/
@@ -152,6 +153,33 @@ def step (st : Option KV.TrieLM.Trie) (line : String) : Option KV.TrieLM.Trie ×
         (some (KV.TrieLM.ofLayout (natOfBytes bs) q a cfg counts ll.search), s!"ok search={ll.search} bytes={bs.length}")
       | _, _ => (st, "bad-op")
     | _, _, _ => (st, "bad-op")
+  | "triebuild" :: order :: bound :: start :: rest =>
+    -- triebuild order bound start  ids:p:b …  realhex     (all n-grams with float bits; search region of the real file)
+    match order.toNat?, bound.toNat?, start.toNat?, rest.getLast? with
+    | some order, some bound, some start, some hex =>
+      let grams := rest.dropLast.mapM fun t =>
+        match t.splitOn ":" with
+        | [ids, p, b] =>
+          match nats (ids.splitOn ","), p.toNat?, b.toNat? with
+          | some k, some p, some b => some ({ key := k, prob := p, backoff := b } : KV.TrieBuild.Gram)
+          | _, _, _ => none
+        | _ => none
+      match grams, hexToBytes hex with
+      | some gs, some bs =>
+        match KV.TrieBuild.buildTable KV.TrieBuild.f32add order gs with
+        | .error e => (st, s!"tb err {repr e}")
+        | .ok b =>
+          let M := KV.TrieLM.ofTable b.table bound order start
+          -- the verified checker on the model-built trie: by `check_sound`, this run proves `Represents (ofTable …) (tableOf (ftOf …))`
+          let rep := if b.table.length ≤ 300 then toString (KV.TrieLM.check KV.TrieLM.f32ToRat M (KV.TrieLM.ftOf KV.TrieLM.f32ToRat b.table order) order (KV.TrieLM.rngOf b.table bound)) else "skipped"
+          let real := natOfBytes bs <<< (8 * start)
+          let x := M.mem ^^^ real
+          if x = 0 then (some M, s!"tb ok counts={commaSep b.counts} blanks={b.blanks.length} represents={rep} equal")
+          else
+            let low := Nat.log2 (x - (x &&& (x - 1)))
+            (some M, s!"tb ok counts={commaSep b.counts} blanks={b.blanks.length} represents={rep} diff byte={low / 8 - start} model={(M.mem >>> (8 * (low / 8))) % 256} real={(real >>> (8 * (low / 8))) % 256}")
+      | _, _ => (st, "bad-op")
+    | _, _, _, _ => (st, "bad-op")
   | "triecheck" :: order :: toks =>
     -- triecheck order  ids:p:b:begin:end …  (middle/unigram keys)   ids:p (longest keys); ids comma separated, reversed n-gram
     match st, order.toNat? with
